@@ -207,7 +207,9 @@ BASE = [
 ]
 D, A, B, C, X, C2, P, Q, P2, D2, A2, DD, R, B2 = range(14)
 LIT_S, LIT_I, LIT_N = {"lit": "text"}, {"lit": 5}, {"lit": None}
-BAD_IDS = ["", "zz", "1234", "6ba7b810-9dad-11d1-80b4-00c04fd430c", "g0000000-0000-4000-8000-000000000000"]
+BAD_IDS = ["", "zz", "1234", "6ba7b810-9dad-11d1-80b4-00c04fd430c", "g0000000-0000-4000-8000-000000000000",
+           "6ba7b810-9dad-41d1-80b4-00c04fd430c8\n", "6ba7b810-9dad-41d1-80b4-00c04fd430c8 ", " 6ba7b810-9dad-41d1-80b4-00c04fd430c8",
+           "6ba7b810-9dad-41d1-80b4-00c04fd430c8-0001", "6ba7b810-9dad-41d1-80b4-00c04fd430c86ba7b810-9dad-41d1-80b4-00c04fd430c8"]
 ODD_IDS = ["6BA7B810-9DAD-41D1-80B4-00C04FD430C8", "{6ba7b810-9dad-41d1-80b4-00c04fd430c8}",
            "6ba7b8109dad41d180b400c04fd430c8", "urn:uuid:6ba7b810-9dad-41d1-80b4-00c04fd430c8"]
 GOOD_ID = "6ba7b810-9dad-41d1-80b4-00c04fd430c8"
@@ -382,6 +384,7 @@ def deck():
         for odd in ODD_IDS:
             cell("new_id/%s/noncanonical" % on, ["new_id", obj, odd])
     for oid in [GOOD_ID] + BAD_IDS + ODD_IDS:
+        cell("ctor/doc/oid", ["doc", {"oid": oid}])
         cell("ctor/sec/oid", ["sec", "n", "t", B, {"oid": oid}])
         cell("ctor/prop/oid", ["prop", "n", enc([1]), "int", B, {"oid": oid}])
     cell("ctor/sec/noname", ["sec", None, "t", B, {}], ["sec", "", "t", B, {}])
@@ -412,6 +415,22 @@ def deck():
     cell("create_property/unconvertible", ["create_property", A, "n", enc(["x"]), "int"])
     cell("create_property/ok", ["create_property", A, "n", enc([1.5]), None])
     cell("date/invalid", ["set_attr", D, "date", enc("not a date")], ["set_attr", D, "date", enc("2020-13-45")])
+    for bad in ("not a date", "2021-02-29", "2020-13-45", dt.datetime(2020, 1, 2, 3, 4, 5), 20200102, ""):
+        cell("date/invalid-after-valid", ["set_attr", D, "date", enc(dt.date(2020, 2, 29))], ["set_attr", D, "date", enc(bad)])
+    cell("ctor/doc/date", ["doc", {"date": enc("2020-13-45")}], ["doc", {"date": enc(dt.date(2020, 2, 29)), "version": enc(1.5)}])
+    # a Section whose name is taken by a child of ANOTHER type (index 14 = the Section created by the first op)
+    N = len(BASE)
+    for cont, cn in ((D, "doc"), (A, "sec")):
+        nm = "a" if cont == D else "c"
+        mk = ["sec", nm, "other-type", None, {}]
+        cell("append/%s/clash-other-type" % cn, mk, ["append", cont, N])
+        cell("insert/%s/clash-other-type" % cn, mk, ["insert", cont, 0, N])
+        cell("insert/%s/clash-other-type-last" % cn, mk, ["insert", cont, 5, N])
+        cell("extend/%s/clash-other-type" % cn, mk, ["extend", cont, [X, N]])
+        cell("set_parent/%s/clash-other-type" % cn, mk, ["set_parent", N, cont])
+        cell("setitem/%s/clash-other-type" % cn, mk, ["setitem", cont, "sections", 1, N])
+        cell("create_section/%s/clash-other-type" % cn, ["create_section", cont, nm, "other-type"])
+        cell("ctor/%s/clash-other-type" % cn, ["sec", nm, "other-type", cont, {}])
     cell("date/valid", ["set_attr", D, "date", enc("2020-02-03")], ["set_attr", D, "date", enc(dt.date(2021, 1, 1))])
     return t
 
@@ -419,8 +438,9 @@ def deck():
 # value-operation material (C05)
 VALUE_POOL = {
     "int": [1, "2", "3.7", 2.9, True, "x", "", None, [1, 2], ["1", "x"], [1, "x"], "[1, 2]", "[1,x]", 10 ** 20, "1e3", "(1;2)",
-            {"a": 1}, b"5", dt.date(2020, 1, 1), float("nan"), " 7 "],
-    "float": [1.5, "2.5", 1, "x", "", None, [1.0, "2"], [1.5, "x"], "[1.5, 2]", "nan", "1e400", True, "1,5", dt.time(1, 2, 3)],
+            {"a": 1}, b"5", dt.date(2020, 1, 1), float("nan"), " 7 ", float("inf"), "inf", "1e999", 10 ** 400, [1, float("inf")]],
+    "float": [1.5, "2.5", 1, "x", "", None, [1.0, "2"], [1.5, "x"], "[1.5, 2]", "nan", "1e400", True, "1,5", dt.time(1, 2, 3), 10 ** 400, [1.5, 10 ** 400],
+              float("inf"), "-inf", -0.0],
     "boolean": [True, False, "true", "False", "1", "0", "t", "f", 1, 0, 2, "yes", "", None, [True, "false"], "x", [True, "x"]],
     "string": ["s", "", " ", 5, 1.5, True, None, ["a", "b"], "[a, b]", "a\nb", ["x", 5], "[", "]", "[]", {"k": 1}, [], [[1, 2]],
                (1, 2), [(1, 2)], [{"a": 1}], {1, 2}],
@@ -551,8 +571,8 @@ def rand_struct_op(rng, world, failing=0.3):
         return rng.choice(pool)
     r = rng.random()
     kinds = ["append", "insert", "extend", "remove", "set_parent", "setitem", "reorder", "rename", "clone",
-             "merge", "link", "sec", "prop", "create", "new_id", "set_card", "finalize"]
-    weights = [10, 8, 5, 6, 12, 8, 7, 8, 5, 5, 4, 6, 5, 3, 2, 3, 2]
+             "merge", "link", "sec", "prop", "create", "new_id", "set_card", "finalize", "doc_attr"]
+    weights = [10, 8, 5, 6, 12, 8, 7, 8, 5, 5, 4, 6, 5, 3, 2, 3, 2, 2]
     k = rng.choices(kinds, weights)[0]
     nm_s = lambda: rng.choice(hist.SEC_NAMES)
     nm_p = lambda: rng.choice(hist.PROP_NAMES)
@@ -600,7 +620,7 @@ def rand_struct_op(rng, world, failing=0.3):
             extra["sec_cardinality"] = enc(rng.choice(["bad", (3, 1), -2]))
         if rng.random() < 0.1:
             extra["oid"] = rng.choice(BAD_IDS + ODD_IDS + [GOOD_ID])
-        return ["sec", rng.choice([nm_s(), nm_s(), None]), "t", rng.choice(conts + [None]), extra]
+        return ["sec", rng.choice([nm_s(), nm_s(), None]), rng.choice(["t", "t", "t", "t2"]), rng.choice(conts + [None]), extra]
     if k == "prop":
         extra = {}
         if rng.random() < failing * 0.3:
@@ -613,6 +633,12 @@ def rand_struct_op(rng, world, failing=0.3):
             return ["create_section", rng.choice(conts), nm_s(), "t"]
         return ["create_property", rng.choice(secs) if secs else conts[0], nm_p(),
                 enc(rng.choice([[1], ["x"], None])), rng.choice(["int", None])]
+    if k == "doc_attr" and docs:
+        import datetime as _dt
+        if rng.random() < 0.3:
+            return ["doc", {"oid": rng.choice(BAD_IDS + ODD_IDS + [GOOD_ID])}]
+        return ["set_attr", rng.choice(docs), "date", enc(rng.choice([_dt.date(2020, 2, 29), "2019-03-04", "2021-02-29", "nonsense",
+                                                                      None, _dt.datetime(2020, 1, 1, 1, 1, 1)]))]
     if k == "new_id":
         return ["new_id", rng.choice(anyobj + docs), rng.choice([None, GOOD_ID] + BAD_IDS[:2] + ODD_IDS[:2])]
     if k == "set_card":
